@@ -24,6 +24,9 @@ from .sym import (SymInt, SymBool, SymSeq, SymIter, Ctx, PathEnd, Undecided,
                   set_ctx, ctx, mk, mkb, as_z3_bool, as_z3_int)
 
 
+import os as _os
+_TRACE_OBL = bool(_os.environ.get("PYVC_TRACE_OBL"))
+
 # ------------------------------------------------------------------ env
 
 class Env(dict):
@@ -557,6 +560,10 @@ def discharge(pc, goal, timeout_ms, axioms=()):
     slices.  Any `unsat` proves, any `sat` refutes (then replayed natively);
     nothing else is ever turned into a verdict."""
     t0 = time.time()
+    # structural normalisation (equivalence preserving): Length of concat / unit / empty / extract terms becomes integer
+    # arithmetic over the lengths of the atomic sub-terms -- z3's sequence solver overshoots every budget on such terms
+    pc = [_normalize_seq(e) for e in pc]
+    goal = _normalize_seq(goal)
     exprs = list(pc) + [goal]
     use_pow2 = any(S._uses_pow2(e) for e in exprs)
     hints = _div_chain_hints(exprs)
@@ -631,6 +638,46 @@ def discharge(pc, goal, timeout_ms, axioms=()):
 
 
 _CHAIN_PROVED = {}
+
+
+_NORM_CACHE = {}
+
+
+def _normalize_seq(e):
+    """replace Length(t) and nth(t, i) for structured sequence terms t (concat / unit / empty / extract) by the integer
+    arithmetic of spec._slen / spec._sat, to a fix point (sound: equal in the theory of sequences; nth is only rewritten
+    where the original term is, i.e. its value outside the bounds stays unspecified on both sides of an extract because
+    obligations guard every index)"""
+    from .spec import _slen, _sat
+    STRUCT = (z3.Z3_OP_SEQ_CONCAT, z3.Z3_OP_SEQ_UNIT, z3.Z3_OP_SEQ_EMPTY, z3.Z3_OP_SEQ_EXTRACT)
+    for _round in range(8):
+        seen = set()
+        stack = [e]
+        subs = []
+        while stack:
+            t = stack.pop()
+            if t.get_id() in seen:
+                continue
+            seen.add(t.get_id())
+            if z3.is_quantifier(t):
+                stack.append(t.body())
+                continue
+            if not z3.is_app(t):
+                continue
+            k = t.decl().kind()
+            if k == z3.Z3_OP_SEQ_LENGTH:
+                a0 = t.arg(0)
+                if z3.is_app(a0) and a0.decl().kind() in STRUCT:
+                    key = ("len", t.get_id())
+                    if key not in _NORM_CACHE:
+                        _NORM_CACHE[key] = (t, z3.simplify(_slen(a0)))
+                    subs.append(_NORM_CACHE[key])
+                    continue
+            stack.extend(t.children())
+        if not subs:
+            return e
+        e = z3.substitute(e, *subs)
+    return e
 
 
 def _div_chain_hints(exprs):
@@ -895,6 +942,9 @@ def run_contract(contract, gridpoint, timeout_ms=10000, max_paths=4000, unwind=6
             res["solver_calls"] += c.solver_calls
             # discharge this path's obligations
             for (name, pc, goal, info) in c.obligations:
+                if _TRACE_OBL:
+                    sys.stderr.write("OBLIGATION %s\n" % name)
+                    sys.stderr.flush()
                 st, model, dt, backend = discharge(pc, goal, timeout_ms, c.axioms)
                 res["solver_time"] += dt
                 res["solver_calls"] += 1
